@@ -4,6 +4,7 @@
            subject=<0|1> created=<absent|valid|malformed> target=<ros-present|ros-absent|pusher>
     pk mt s=<string>        media-type regex
 -/
+import OrasModel.Spec.Grammar
 import OrasModel.Model.Pack
 import OrasModel.Model.Re
 import OrasModel.Gen.Regex
@@ -25,7 +26,7 @@ def step (toks : List String) : Option (String × String) :=
       (match toks with
        | "mt" :: rest => do
            let s ← kv rest "s"
-           some (toString (Gen.mediaTypeRe.accepts s.toList), "*")
+           some (toString (Gen.mediaTypeRe.accepts s.toList), toString (Spec.Grammar.mediaType.accepts s.toList))
        | "det" :: _ => some ("same", "same")
        | _ => none)
     else do
